@@ -201,6 +201,8 @@ pub fn gen_dict(rng: &mut Rng, o: &GenOpts) -> GenDict {
             } else {
                 gen_surface(rng, &lex_alpha, 4)
             };
+            // a surface may begin with '#' (a comment marker in char.def / feature.def, but not in a lexicon)
+            let surface = if rng.chance(1, 14) { format!("#{}", surface) } else { surface };
             rows.push(Row {
                 surface,
                 lid: rng.below(nleft as u64) as u16,
